@@ -47,7 +47,7 @@ def selftest():
 
 def REQUIRED_COVER(tier):
     return {'magic:idx', 'magic:idx_crc', 'hashes:all', 'roots:2', 'roots:dup', 'order:alt', 'size:4', 'off:8', 'cache', 'neg:prefix', 'neg:flip', 'neg:ref',
-            'neg:root', 'neg:extend', 'full-product'}
+            'neg:root', 'neg:extend', 'full-product', 'neg:ref:backward-leaf', 'neg:ref:self', 'neg:ref:dangling', 'neg:ref:backward'}
 
 
 # ------------------------------------------------------------------ DAG family (small)
@@ -326,6 +326,80 @@ def shard_dag(rec, dag, k, negative):
     rec.sample({'dag': dag, 'deviation_bound': k, 'choice_points': {n: [str(x) for x in doms[n]] for n in NAMES}})
 
 
+def refgraph_shapes(tier):
+    out = []
+    for n in (2, 3, 4) + ((5,) if tier == 'thorough' else ()):
+        for si, shape in enumerate(dags.enum_shapes(n, max_refs=4 if n <= 3 else 2 if n == 4 else 1)):
+            out.append((n, si, shape))
+    return out
+
+
+def shard_refgraph(rec, part, parts):
+    """reference-index corruption over the whole small-DAG space: EVERY DAG shape (<= 4 cells; thorough also the 5-cell
+    shapes with <= 1 ref per cell), EVERY valid cell order of it, EVERY reference slot set to EVERY other index value
+    (self, each backward position - leaf or not -, each other forward position, n, n+1, max) - with and without CRC
+    (the CRC is recomputed: the bag is internally consistent apart from the reference)."""
+    for idx, (n, si, shape) in enumerate(refgraph_shapes(rec.tier)):
+        if idx % parts == part:
+            case_refgraph(rec, n, si)
+    if part == 0:
+        rec.sample({'refgraph': 'every shape x every linear extension x every reference slot x every index value'})
+
+
+def case_refgraph(rec, n, si, only=None):
+    from pytoniq_core.boc import Cell
+    shape = next(sh for k, sh in enumerate(dags.enum_shapes(n, max_refs=4 if n <= 3 else 2 if n == 4 else 1)) if k == si)
+    root = dags.build_ref(shape, 'ua')[0]
+    exts = RB.linear_extensions(RB.topo([root]))
+    args = {'n': n, 'si': si}
+    for oi, order in enumerate(exts):
+        for ci, c in enumerate(order):
+            for ri in range(len(c.refs)):
+                good = next(i for i, x in enumerate(order) if x is c.refs[ri] or x.hash() == c.refs[ri].hash())
+                for v in list(range(0, n + 2)) + [255]:
+                    if v == good:
+                        continue
+                    for crc in (False, True):
+                        def patch(i, refs, ci=ci, ri=ri, v=v):
+                            if i == ci:
+                                refs = list(refs)
+                                refs[ri] = v
+                            return refs
+                        bad = RB.encode([root], order=order, has_crc=crc, raw_patch=patch)
+                        rec.case('neg:refgraph')
+                        rec.trans()
+                        rec.bulk(states=1, nontrivial=1)
+                        detail = f'shape {n}:{si} order #{oi} cell {ci} ref {ri}: {good} -> {v} (crc={crc})'
+                        if ci < v < n:
+                            # another FORWARD index: a different bag; if it is well-formed the parser must return what it denotes
+                            try:
+                                want, _ = RB.decode(bad)
+                            except RB.BocFormatError:
+                                rec.outcome('forward:not-well-formed')
+                                continue
+                            try:
+                                got = Cell.from_boc(bad)
+                            except Exception as e:
+                                rec.violation('refgraph:forward-rejected', f'{detail}: well-formed bag rejected: {exc_name(e)}: {e}', 'case_refgraph', args)
+                                continue
+                            rec.trace()
+                            if len(got) != len(want) or any(g.hash != w.hash() or lib_canon(g) != RC.canon(w) for g, w in zip(got, want)):
+                                rec.violation('refgraph:forward-other', f'{detail}: parser returned other roots than the encoding denotes', 'case_refgraph', args)
+                            rec.outcome('forward:same')
+                            continue
+                        kind = 'self' if v == ci else 'backward' if v < ci else 'dangling'
+                        if v < ci and not order[v].refs:
+                            kind = 'backward-leaf'
+                        rec.covered(f'neg:ref:{kind}')
+                        try:
+                            got = Cell.from_boc(bad)
+                        except Exception as e:
+                            rec.outcome(f'neg-raise:{exc_name(e)}')
+                            continue
+                        rec.violation(f'negative:ref:{kind}', f'{detail}: {kind} reference accepted, parser returned {len(got)} root(s) ({bad.hex()[:80]})', 'case_refgraph', args)
+                        rec.outcome(f'ACCEPTED-{kind}')
+
+
 def shard_full_product(rec, part, parts):
     """2-cell DAG with a shared child: FULL product of all freedoms"""
     a = RC.RCell('101')
@@ -379,4 +453,6 @@ def shards(tier, seed):
         out.append({'fn': 'shard_dag', 'args': {'dag': name, 'k': k, 'negative': negative}, 'prio': n})
     for p in range(8):
         out.append({'fn': 'shard_full_product', 'args': {'part': p, 'parts': 8}})
+    for p in range(8):
+        out.append({'fn': 'shard_refgraph', 'args': {'part': p, 'parts': 8}})
     return out
